@@ -16,7 +16,7 @@ ID = "C18"
 LEVEL = "exploration"
 TECHNIQUE = "ThreadSanitizer on concurrent compile()/VM runs with seeded jitter + byte-equality of full-result digests against per-input baselines from fresh processes (sequential histories, ASan and plain builds must agree)"
 FLAVOURS = [("tsan", "generated", ("mt_drv",)), ("asan", "generated", ("mt_drv",)), ("plain", "generated", ("mt_drv",))]
-RULE = ("40 inputs (accepted, erroneous, macro-heavy, multi-file); digest = every field of the CodegenResult (code field-wise, stack maps, both breakpoint "
+RULE = ("49 inputs (accepted, erroneous, macro-heavy, multi-file, with positions inside the standard-macro file in errors and temporaries); digest = every field of the CodegenResult (code field-wise, stack maps, both breakpoint "
         "tables, messages, requests) and of a bounded execution (instruction count, final variables, location); baselines: each input alone in a fresh "
         "process (ASan build and plain build must agree); sequential: random call histories of 200 calls in one process; concurrent: 8-16 threads x "
         "100-400 calls with seeded 0-200us jitter under ThreadSanitizer (any report is a violation) and under ASan; every call's digest must equal its "
@@ -65,6 +65,12 @@ def inputs(seed):
     ins.append(({"main": "DEFINE PRIO 99999999999999999999999 a AS $18446744073709551616 END DEFINE\nx := a"}, "main"))
     ins.append(({"main": 'include "nofile"\nx := 1'}, "main"))
     ins.append(({"a": "x := 1"}, "main"))
+    # positions inside the hidden standard-macro file showing up in the result: an error located there (the +/- sugar used where no
+    # value may stand), and a caller-supplied __standards__ whose macro temporaries carry that file's line in their names
+    ins.append(({"main": "x1 := 2 ;\nLOOP x1 + 1 DO\nx := 1\nEND"}, "main"))
+    ins.append(({"main": "y := 3 ;\nWHILE y - 1 != 0 DO\ny := 0\nEND ;\nGOTO y + 2"}, "main"))
+    ins.append(({"main": "x := 5 ;\ny := 7 ;\nSAVE x ;\nSAVE y", "__standards__": "\n\nDEFINE SAVE <ID> AS #0 := $0 ; $0 := #0 ; #1 := #0 END DEFINE\n"}, "main"))
+    ins.append(({"main": 'x := 5 ;\ninclude "lib"\nKEEP x', "lib": "\n\n\nDEFINE KEEP <ID> AS #3 := $0 ; $0 := #3 END DEFINE\ny := 1 ;", "__standards__": "// nothing\n"}, "main"))
     return ins
 
 
